@@ -156,6 +156,7 @@ func init() {
 				// restart with the window across the identifier wrap
 				pp.Restarts = 1 + c.Rng.Intn(2)
 				pp.Budget = c.Rng.Intn(2)
+				pp.HoldP = 0.8 // so that the window spans the wrap at the stop
 				for _, lvl := range pp.Levels {
 					pp.Prelude[lvl] = 0x4000 - 1 - c.Rng.Intn(pp.NPub/len(pp.Levels)+1)
 				}
